@@ -312,11 +312,54 @@ def r4(db, rep):
     rep.floor("R4", "cached storage index sites", n, 6)
 
 
+def r5(db, rep):
+    rep.rule("R5", "UniqueShape (dictionary mode) gets a new identity whenever its layout changes: after removing a key / "
+                   "changing a slot width / replacing the prototype every path returns a shape built by UniqueShape::new")
+    def fn(name):
+        return [f for f in db.fns.values() if cname(f.id) == name and f.id.startswith("boa_engine::object::shape::unique_shape")]
+    fs = fn("UniqueShape::remove_property_transition")
+    if rep.anchor("R5", "UniqueShape::remove_property_transition", fs):
+        f = fs[0]
+        removes = [b for b, t in f.calls() if cn(t).split("::")[-1] in ("remove", "shift_remove", "swap_remove") and
+                   base_ident(cn(t).rsplit("::", 1)[0]) in ("Vec", "ThinVec")]
+        news = set(b for b, t in f.calls() if cn(t) == "UniqueShape::new")
+        if rep.anchor("R5", "keys.remove in remove_property_transition", removes):
+            path = f.path_avoiding(f.succs(removes[0]), news, is_ret(f))
+            rep.ob("R5", "UniqueShape::remove_property_transition:new-identity", bool(news) and path is None,
+                   "UniqueShape::remove_property_transition can return without creating a new UniqueShape after removing a "
+                   "key — slots cached for the old layout stay valid by identity and read shifted storage", loc=f.span)
+    fs = fn("UniqueShape::change_attributes_transition")
+    if rep.anchor("R5", "UniqueShape::change_attributes_transition", fs):
+        f = fs[0]
+        news = set(b for b, t in f.calls() if cn(t) == "UniqueShape::new")
+        ok = True
+        n = 0
+        for b in sorted(f.reachable()):
+            for st in f.blocks[b]["s"]:
+                r = st["r"]
+                if r.get("k") == "agg" and r.get("adt", "").endswith("ChangeTransitionAction") and r.get("variant") in ("Insert", "Remove"):
+                    n += 1
+                    if f.path_avoiding(f.succs(b) or [b], news, is_ret(f)) is not None and b not in news:
+                        ok = False
+        rep.ob("R5", "UniqueShape::change_attributes_transition:new-identity", ok and n >= 2 and bool(news),
+               "UniqueShape::change_attributes_transition can report a width change (Insert/Remove) while keeping the same "
+               "shape identity", loc=f.span)
+    fs = fn("UniqueShape::change_prototype_transition")
+    if rep.anchor("R5", "UniqueShape::change_prototype_transition", fs):
+        f = fs[0]
+        news = set(b for b, t in f.calls() if cn(t) == "UniqueShape::new")
+        rep.ob("R5", "UniqueShape::change_prototype_transition:new-identity",
+               bool(news) and f.path_avoiding([0], news, is_ret(f)) is None,
+               "UniqueShape::change_prototype_transition can return the same shape identity after the prototype changed — "
+               "prototype-chain slots cached for this shape stay valid", loc=f.span)
+
+
 def run(db, rep, tier):
     r1(db, rep)
     r2(db, rep)
     r3(db, rep)
     r4(db, rep)
+    r5(db, rep)
     rep.assumptions += [
         "Shape values are immutable descriptions of a layout (shape transitions create new shapes; checked for the "
         "property map's own field only)",
